@@ -11,7 +11,7 @@ open Rzmq
 
 /-- starts at RECONNECT_IVL (or at the cap, if the cap is smaller) -/
 theorem core_first (base max : Nat) : coreDelay base max 0 = if max > 0 then min base max else base := by
-  simp [coreDelay]
+  simp [coreDelay, Gen.backoffPowerCap]
 
 /-- grows at most geometrically: never more than doubles from one attempt to the next -/
 theorem core_at_most_doubles (base max k : Nat) : coreDelay base max (k + 1) ≤ 2 * coreDelay base max k := by
@@ -19,19 +19,19 @@ theorem core_at_most_doubles (base max k : Nat) : coreDelay base max (k + 1) ≤
   have h2 : base * 2 ^ (min (k + 1) 31) ≤ 2 * (base * 2 ^ (min k 31)) := by
     rw [← Nat.mul_assoc, Nat.mul_comm 2 base, Nat.mul_assoc]
     exact Nat.mul_le_mul_left _ h1
-  simp only [coreDelay]
+  simp only [coreDelay, Gen.backoffPowerCap]
   split <;> omega
 
 /-- never shrinks -/
 theorem core_monotone (base max k : Nat) : coreDelay base max k ≤ coreDelay base max (k + 1) := by
   have h2 : base * 2 ^ (min k 31) ≤ base * 2 ^ (min (k + 1) 31) :=
     Nat.mul_le_mul_left _ (pow_min_mono k)
-  simp only [coreDelay]
+  simp only [coreDelay, Gen.backoffPowerCap]
   split <;> omega
 
 /-- never exceeds RECONNECT_IVL_MAX when that is set -/
 theorem core_capped (base max k : Nat) (h : 0 < max) : coreDelay base max k ≤ max := by
-  simp only [coreDelay, h, if_true]
+  simp only [coreDelay, Gen.backoffPowerCap, h, if_true]
   omega
 
 /-- no overflow for any attempt number: the result fits 64 bits of milliseconds for i32-millisecond options -/
@@ -40,13 +40,13 @@ theorem core_bounded (base max k : Nat) (hb : base < 2 ^ 31) : coreDelay base ma
   have h2 : base * 2 ^ (min k 31) ≤ base * 2 ^ 31 := Nat.mul_le_mul_left _ h1
   have h3 : base * 2 ^ 31 < 2 ^ 31 * 2 ^ 31 := Nat.mul_lt_mul_of_pos_right hb (by decide)
   have h4 : (2:Nat) ^ 31 * 2 ^ 31 < 2 ^ 63 := by decide
-  simp only [coreDelay]
+  simp only [coreDelay, Gen.backoffPowerCap]
   split <;> omega
 
 /-- exponent saturates at 31: the schedule is constant from attempt 31 on -/
 theorem core_saturates (base max k : Nat) (hk : 31 ≤ k) : coreDelay base max k = coreDelay base max 31 := by
   have h : min k 31 = min 31 31 := by omega
-  simp only [coreDelay, h]
+  simp only [coreDelay, Gen.backoffPowerCap, h]
 
 /-- connecter schedule with a cap: never more than doubles, never above the cap once below it, monotone -/
 theorem conn_at_most_doubles (m base inh j : Nat) :
@@ -58,34 +58,31 @@ theorem conn_at_most_doubles (m base inh j : Nat) :
   · right; rfl
 
 theorem conn_capped (m base inh j : Nat) (hm : 0 < m) (hb : base ≤ m) : connDelay (some m) base inh j ≤ m := by
-  induction j with
-  | zero =>
-    simp only [connDelay, connFastForward]
-    split
-    · exact foldl_double_cap_le m _ base hb
-    · exact hb
-  | succ j ih =>
-    simp only [connDelay, connDouble]
-    split <;> omega
+  exact connDelay_le_cap m base inh j hm
 
 /-- without a cap the connecter retries at a constant RECONNECT_IVL -/
 theorem conn_constant_without_cap (base inh j : Nat) : connDelay none base inh j = base := by
   induction j with
-  | zero => rfl
+  | zero => simp [connDelay, connFastForward, connInitial]
   | succ j ih => simp [connDelay, connDouble, ih]
 
 /-- hand-over consistency: a connecter that inherits `k` failed attempts from the core starts from the very
 delay the core computed for attempt `k` (cap set, base within the cap) -/
 theorem handover_consistent (m base k : Nat) (hm : 0 < m) (hb : 0 < base) (hbm : base ≤ m) :
     connDelay (some m) base k 0 = coreDelay base m k := by
-  simp only [connDelay, connFastForward, coreDelay]
+  have h0 : connInitial (some m) base = base := by
+    rw [connInitial_some m base hm]; omega
+  simp only [connDelay, connFastForward, coreDelay, Gen.backoffPowerCap, h0]
   rw [foldl_double_cap m _ base hbm]
   simp [hm, hb]
 
-/-- KNOWN FINDING candidate C17:connecter-first-delay-exceeds-cap — with RECONNECT_IVL > RECONNECT_IVL_MAX > 0
-the connecter's first in-actor wait is RECONNECT_IVL, above the cap (the core's schedule caps it) -/
-theorem conn_first_exceeds_cap_counterexample :
-    connDelay (some 100) 500 0 0 = 500 ∧ coreDelay 500 100 0 = 100 := by
-  decide
+/-- the connecter's first in-actor wait respects the cap too (fixed: it used to be the raw RECONNECT_IVL even
+when RECONNECT_IVL > RECONNECT_IVL_MAX > 0) -/
+theorem conn_first_capped (m base inh : Nat) (hm : 0 < m) : connDelay (some m) base inh 0 ≤ m := by
+  exact connDelay_le_cap m base inh 0 hm
+
+/-- and therefore every delay of the connecter's schedule does, with no side condition on RECONNECT_IVL -/
+theorem conn_always_capped (m base inh j : Nat) (hm : 0 < m) : connDelay (some m) base inh j ≤ m := by
+  exact connDelay_le_cap m base inh j hm
 
 end Rzmq.C17
